@@ -371,6 +371,9 @@ func (c *ctx) sliceWF(s *T) *T {
 // inputWF gives well-formedness assumptions of a symbolic input value of Go type t
 // (one level: range of integers, slice shape, non-negative refs, struct fields).
 func (c *ctx) inputWF(x *T, t types.Type) *T {
+	if isTimeType(t) {
+		return tTrue
+	}
 	if w, s, ok := intInfo(t); ok {
 		return c.inRange(x, w, s)
 	}
